@@ -8,7 +8,7 @@ import ast
 from dataclasses import dataclass
 from typing import Iterator, Optional
 
-from .program import FuncInfo, Program, unparse, walk_no_nested
+from .program import FuncInfo, Program, unparse, walk_no_nested, expand_locals, path_alias_defs
 
 SKIP_MODULES = ("ROMS2",)  # not anchored by any property (advisory only)
 
@@ -43,6 +43,7 @@ def state_writes(prog: Program, modules: Optional[list[str]] = None) -> Iterator
         if modules and fi.module.name not in modules:
             continue
         env = prog.type_env(fi)
+        pad = path_alias_defs(fi.node)  # alive = state.alive; variables = self.variables ...
         for node in walk_no_nested(fi.node):
             targets = []
             value = None
@@ -58,6 +59,8 @@ def state_writes(prog: Program, modules: Optional[list[str]] = None) -> Iterator
                     flat.extend(t.elts)
                 else:
                     flat.append(t)
+            if pad:
+                flat = [expand_locals(t, fi.node, pad) if isinstance(t, (ast.Subscript, ast.Attribute)) else t for t in flat]
             for t in flat:
                 # counter
                 if isinstance(t, ast.Attribute) and t.attr == "npid":
